@@ -2,7 +2,7 @@
    measure of the read state machine, for every input, segmentation and close timing. *)
 From Coq Require Import NArith List Bool Arith Lia.
 Import ListNotations.
-From LTV.C06 Require Import ParamsGen Model ProofsInv.
+From LTV.C06 Require Import ParamsProbe Model ProofsInv.
 
 Definition Lmsg (s : hst) := N.to_nat (be (firstn 4 (vals s)) 0).
 Definition wflag (s : hst) := wint s || wbf s.
